@@ -1,4 +1,4 @@
-import SFV.Lemmas.RunCrate
+import SFV.Lemmas.RunCrateIO
 /-! # C34 — exported run provenance is self-contained and consistent (bookkeeping kernel)
 
 Model: `SFV/Model/RunCrate.lean` — the three kinds of updates `RunCrateProvenanceManager` performs on its `graph` dict and
@@ -51,6 +51,61 @@ theorem file_entities_have_archive_entry (ops : List Op) (exists_ : String → B
     dst ∈ archiveNames exists_ (run ops).files [] :=
   archiveNames_has exists_ _ [] src dst h hex
 
+/-- the uuids the manager draws are new: pairwise different, not yet keys of the graph, no File checksum, not the action,
+not the root dataset; `S` is the set of File checksums that may occur -/
+structure FreshIds (S : List String) (action : String) (c : Crate) (toks : List (String × String × TokVal)) : Prop where
+  distinct : toks.Pairwise (fun a b => a.1 ≠ b.1)
+  unused : ∀ t, t ∈ toks → t.1 ∉ keys c ∧ t.1 ∉ S ∧ t.1 ≠ action ∧ t.1 ≠ "./"
+  shas : ∀ t, t ∈ toks → ∀ s, s ∈ tokShas t.2.2 → s ∈ S
+
+/-- **every input and output value of the run is represented**: for every history of values handed to the manager
+(`get_property_value` + `_get_property_values` + `_update_actions`), each non-null value ends up as an entity of the
+graph — a File entity under its checksum, or a PropertyValue carrying the port's name and the flattened, stringified
+value — and the run's action links to it -/
+theorem io_values_represented (S : List String) (action : String) :
+    ∀ (toks : List (String × String × TokVal)) (c : Crate),
+      action ∈ keys c → action ∉ S → "./" ∉ S → FilesOk S c → FreshIds S action c toks →
+      ∀ t, t ∈ toks → t.2.2 ≠ .leaf .null →
+        ∃ p, p ∈ (registerAll c action toks).graph ∧ p.1 = repId t.1 t.2.2 ∧ Represents p.2 t.2.1 t.2.2 ∧
+          ∃ a, a ∈ (registerAll c action toks).graph ∧ a.1 = action ∧ repId t.1 t.2.2 ∈ a.2.refs
+  | [], _, _, _, _, _, _, t, ht, _ => by simp at ht
+  | (f, n, v) :: r, c, hact, haS, hroot, hfiles, hfresh, t, ht, hne => by
+    obtain ⟨hfk, hfS, hfa, hfr⟩ := hfresh.unused (f, n, v) (by simp)
+    obtain ⟨h1, h2, h3⟩ := registerValue_spec S action f n v c hact haS hroot hfiles
+      (hfresh.shas (f, n, v) (by simp)) hfk hfS hfa hfr
+    have hext := ext_registerAll action r (registerValue c action f n v)
+    simp only [registerAll]
+    rcases List.mem_cons.mp ht with rfl | ht'
+    · obtain ⟨p, hp, hp1, hp2, a, ha, ha1, ha2⟩ := h3 hne
+      have hidS : repId f v ≠ action ∧ repId f v ≠ "./" := by
+        cases v with
+        | leaf l =>
+          cases l with
+          | file sha path =>
+            have hs : sha ∈ S := hfresh.shas (f, n, .leaf (.file sha path)) (by simp) sha (by simp [tokShas, leafShas])
+            exact ⟨fun e => haS (e ▸ hs), fun e => hroot (e ▸ hs)⟩
+          | _ => exact ⟨hfa, hfr⟩
+        | list items => exact ⟨hfa, hfr⟩
+      obtain ⟨a', ha', ha1', ha2'⟩ := hext.link _ ⟨a, ha, ha1, ha2⟩
+      exact ⟨p, hext.keep p hp (hp1 ▸ hidS.1) (hp1 ▸ hidS.2), hp1, hp2, a', ha', ha1', ha2'⟩
+    · have hd := List.pairwise_cons.mp hfresh.distinct
+      refine io_values_represented S action r (registerValue c action f n v)
+        ((ext_registerValue action f n c v).keys action hact) haS hroot h1 ⟨hd.2, ?_, ?_⟩ t ht' hne
+      · intro t' ht''
+        obtain ⟨u1, u2, u3, u4⟩ := hfresh.unused t' (by simp [ht''])
+        refine ⟨?_, u2, u3, u4⟩
+        intro hk
+        rcases h2 _ hk with hk | hk | hk
+        · exact u1 hk
+        · exact hd.1 t' ht'' hk.symm
+        · exact u2 hk
+      · intro t' ht''; exact hfresh.shas t' (by simp [ht''])
+
+/-- the representation is not injective (known finding): a one-element array and its element are written alike -/
+theorem single_element_array_collapses :
+    jsonValueIsScalar { id := "#a", name := "x", values := [Leaf.scalar "17"].filterMap leafValue } = true ∧
+    jsonValueIsScalar { id := "#b", name := "x", values := ["17"] } = true := by decide
+
 /-! ### non-vacuity: the shape of a real export (root, main entity, configuration file, an action with a result) -/
 def exHistory : List Op :=
   [.put { id := "./" }, .put { id := "ro-crate-metadata.json", refs := ["./"] },
@@ -62,5 +117,14 @@ def exHistory : List Op :=
 example : idsUnique (emitted (run exHistory)) = true ∧ refsClosed (emitted (run exHistory)) = true ∧
     filesPresent (emitted (run exHistory)) (archiveNames (fun _ => true) (run exHistory).files []) = true := by decide
 example : (emitted (run exHistory)).length = 6 := by decide
+
+/-- non-vacuity of `io_values_represented`: a scalar, a File, a list with a null and a File, and a null -/
+def exToks : List (String × String × TokVal) :=
+  [("#u1", "n", .leaf (.scalar "3")), ("#u2", "f", .leaf (.file "abc" "/in/f.txt")),
+   ("#u3", "xs", .list [.scalar "1", .null, .file "def" "/out/g.txt"]), ("#u4", "z", .leaf .null)]
+
+example : (emitted (registerAll (run [.put { id := "./" }, .put { id := "#run" }]) "#run" exToks)).map (fun e => (e.id, e.name, e.values, e.refs)) =
+    [("./", "", [], ["abc", "def"]), ("#run", "", [], ["#u1", "abc", "#u3"]), ("#u1", "n", ["3"], []), ("abc", "", [], []),
+     ("def", "", [], []), ("#u3", "xs", ["1", "@def"], [])] := by decide
 
 end SFV.C34
